@@ -26,7 +26,7 @@ JudgeIO(e, Fr, Gr) ==
   CASE e.op = "ToCSV" ->
          IF R.err THEN IORes(e.err = 1, FALSE, FALSE)
          ELSE IF ToCsvArgsBad(R, e.a) THEN IORes(e.err = 1, FALSE, FALSE)
-         ELSE IF e.a.hascols = 1 /\ HasDup(e.a.cols) THEN IORes(TRUE, FALSE, TRUE)
+         ELSE IF (e.a.hascols = 1 /\ HasDup(e.a.cols)) \/ Len(R.cols) = 0 THEN IORes(TRUE, FALSE, TRUE)  \* CSV cannot show a row of no fields
          ELSE IORes(e.err = 0 /\ ToCsvOK(R, e.a.header, e.a.hascols, e.a.cols, e.bytes, e.txt), FALSE, FALSE)
     [] e.op = "ToJSON" ->
          IF R.err THEN IORes(e.err = 1, FALSE, FALSE)
